@@ -20,11 +20,10 @@ Lemma wrd_reqs l : wrd (map (fun e : bool * N * list op => (snd (fst e), Some (s
 Proof. induction l as [|[[? ?] ?] l IH]; cbn [wrd wpd map fst snd]; lia. Qed.
 Lemma wrd_erase l : wrd (map (fun e : N * option (list op) => (fst e, @None (list op))) l) = 0%nat.
 Proof. induction l as [|[? ?] l IH]; cbn [wrd map fst snd]; lia. Qed.
-Lemma wag_disc_frames run l :
-  (wag (flat_map (fun e : N * option (list op) => match snd e with
-        | Some cb => FDiscLog (fst e) run :: map FOp cb | None => [] end) l) <= wrd l)%nat.
+Lemma wag_disc_frames nulls run l :
+  (wag (disc_frames nulls run l) <= wrd l)%nat.
 Proof.
-  induction l as [|[? [cb|]] l IH]; cbn [flat_map wrd snd fst]; try (cbn; lia).
+  unfold disc_frames in *. induction l as [|[? [cb|]] l IH]; cbn [flat_map wrd snd fst]; try (cbn; lia).
   rewrite wag_app. cbn [wag wframe]. rewrite wag_map_fop. lia.
 Qed.
 
@@ -91,7 +90,7 @@ Lemma disc_complete_w run s ag s' ag' :
 Proof.
   unfold disc_complete, measure, wst. intros H. inversion H; subst; cbn.
   rewrite wag_app, wrd_erase. cbn [wag wframe].
-  pose proof (wag_disc_frames run (s_rdisc s)). lia.
+  pose proof (wag_disc_frames (s_nulls s) run (s_rdisc s)). lia.
 Qed.
 
 Lemma destroy_next_w s ag s' ag' :
@@ -106,15 +105,15 @@ Lemma step_decreases s f ag s' ag' :
   step s f ag = (s', ag') -> (measure s' ag' < measure s (f :: ag))%nat.
 Proof.
   destruct f as [o| | | |]; cbn [step]; intros H.
-  - destruct o as [cb|full cb| | |r|]; cbn [do_op] in H.
+  - destruct o as [cb|full nl cb| | |r|]; cbn [do_op] in H.
     + destruct (s_max s <=? len (s_queue s)).
       * inversion H; subst. unfold measure, wst; cbn. rewrite wag_app, wag_map_fop.
         fold (wops cb). lia.
       * apply take_next_w in H. unfold measure, wst in *; cbn in *. rewrite wq_app in H. cbn in H.
         fold (wops cb). lia.
     + destruct (s_discov s && negb (h_destroying s)).
-      * apply take_next_w in H. unfold measure, wst in *; cbn in *. rewrite wpd_app in H. cbn in H.
-        fold (wops cb). lia.
+      * apply take_next_w in H. unfold measure, wst in *; cbn in *. rewrite wpd_app in H.
+        destruct nl; cbn in H; fold (wops cb); fold (wops cb) in H; lia.
       * inversion H; subst. unfold measure; cbn. lia.
     + inversion H; subst. unfold measure, wst; cbn. lia.
     + apply take_next_w in H. unfold measure, wst in *; cbn in *. lia.
